@@ -278,6 +278,18 @@ def scan_bodies(ctx):
     return [b for b in ctx.f.bodies.values() if any(e == 'SCAN' for (p, e, cs) in ctx.E.direct_sites(b))]
 
 
+def number_pushes(b):
+    """Where the scan adds a file number to its list: Vec::<u64>::push(n), or extend(opt) with an Option<u64>
+    (which adds exactly the Some values). [(CallSite, is_option_extend)]"""
+    out = []
+    for cs in b.calls:
+        if re.search(r'Vec::<u64>::push$', cs.name):
+            out.append((cs, False))
+        elif re.search(r'Extend<u64>>::extend::<std::option::Option<u64>>$', cs.name):
+            out.append((cs, True))
+    return out
+
+
 @rule('FS3', ['C17'], floor=2, template='guard-dominates-use')
 def fs3(ctx):
     """The directory scan admits only regular files whose name the parser accepts."""
@@ -285,7 +297,8 @@ def fs3(ctx):
     n = 0
     for b in scan_bodies(ctx):
         fl = flow_of(b)
-        pushes = [cs for cs in b.calls if re.search(r'Vec::<u64>::push$', cs.name)]
+        opt_ext = {cs.point for (cs, is_opt) in number_pushes(b) if is_opt}
+        pushes = [cs for (cs, _o) in number_pushes(b)]
         for ps in pushes:
             n += 1
             # regular file
@@ -307,6 +320,9 @@ def fs3(ctx):
                     for (bj, pl, adt, edges) in b.discr_switches():
                         if place_path(known, pl) == [()] and 'Some' in edges and b.edge_dominates(edges['Some'], ps.point) and from_name:
                             g2 = True
+                    # extend(parser(name)): only a Some is added, by construction
+                    if ps.point in opt_ext and from_name and len(ps.args) > 1 and op_local(ps.args[1]) in known and () in known.get(op_local(ps.args[1]), ()):
+                        g2 = True
                     t = fl.forward(set(fl.call_result_nodes(c2)))
                     if len(ps.args) > 1 and fl.op_tainted(ps.args[1], t):
                         val_ok = True
@@ -386,7 +402,7 @@ def fs6(ctx):
     rds = {b.id for b in name_readers(ctx)}
     n = 0
     for b in scan_bodies(ctx):
-        pushes = [cs for cs in b.calls if re.search(r'Vec::<u64>::push$', cs.name)]
+        pushes = [cs for (cs, _o) in number_pushes(b)]
         loops = [L for L in b.loops() if any(ps.block in L['blocks'] for ps in pushes)]
         if not pushes or not loops:
             continue
